@@ -24,6 +24,12 @@ func (v *Vue) evalAttributes(ctx VueContext, n *html.Node) (map[string]any, erro
 		key := a.Key
 		val := strings.TrimSpace(a.Val)
 
+		// Internal content attributes hold evaluated v-html/v-text output, not template source.
+		if key == "data-v-html-content" || key == "data-v-text-content" {
+			newAttrs = append(newAttrs, html.Attribute{Key: key, Val: val})
+			continue
+		}
+
 		boundValue := val
 		boundName := key
 		// literal bindings
